@@ -129,3 +129,23 @@ func RunBinary(args []string, stdin string) (r CLIResult, ok bool) {
 func looksLikeCrash(s string) bool {
 	return strings.Contains(s, "goroutine ") && strings.Contains(s, "[running]") || strings.Contains(s, "panic:") || strings.Contains(s, "fatal error:") || strings.Contains(s, "runtime error:")
 }
+
+// runBinaryAt runs a binary in a directory with exactly the given environment.
+func runBinaryAt(bin, dir string, env, args []string, stdin string) (r CLIResult, ok bool) {
+	cmd := exec.Command(bin, args...)
+	cmd.Dir = dir
+	cmd.Env = env
+	cmd.Stdin = strings.NewReader(stdin)
+	var so, se bytes.Buffer
+	cmd.Stdout, cmd.Stderr = &so, &se
+	err := cmd.Run()
+	r.Stdout, r.Stderr = so.String(), se.String()
+	if ee, isExit := err.(*exec.ExitError); isExit {
+		r.Status = ee.ExitCode()
+	} else if err != nil {
+		r.Status = -1
+		r.Stderr += err.Error()
+		return r, false
+	}
+	return r, true
+}
